@@ -300,6 +300,25 @@ class JThrow(Exception):
         self.obj = obj
 
 
+def utf16_units(bs):
+    """String.length() of the string whose UTF-8 encoding is bs: one unit per non-continuation byte, one more per
+    four-byte lead byte.  Equal to the byte count only for ASCII content."""
+    n = 0
+    terms = []
+    for b in bs:
+        if is_sym(b):
+            terms.append(z3.If((b & 0xC0) != 0x80, z3.BitVecVal(1, 32), z3.BitVecVal(0, 32)) + z3.If(z3.UGE(b, 0xF0), z3.BitVecVal(1, 32), z3.BitVecVal(0, 32)))
+        else:
+            v = conc(b) if not isinstance(b, int) else b
+            n += (1 if (v & 0xC0) != 0x80 else 0) + (1 if v >= 0xF0 else 0)
+    if not terms:
+        return n
+    t = z3.BitVecVal(n, 32)
+    for x in terms:
+        t = t + x
+    return simp(t)
+
+
 def i32(v):
     if isinstance(v, int):
         v &= 0xffffffff
@@ -356,7 +375,7 @@ class JavaFE:
         self.inited = set()
         self.ctl = PathCtl()
         self.cks_registered = True
-        self.cks_hint = (4, False)
+        self.cks_hint = {'*': (4, False)}
         self.steps = 0
 
     # ------------------------------------------------------------------ class helpers
@@ -797,7 +816,7 @@ class JavaFE:
             if mn == 'getBytes':
                 return JArr(list(recv.bs), 'B')
             if mn == 'length':
-                return len(recv.bs)
+                return utf16_units(recv.bs)
             if mn == 'isEmpty':
                 return 1 if not recv.bs else 0
             if mn in ('toString', 'intern', 'trim'):
@@ -914,7 +933,7 @@ class JavaFE:
             return JCks(bytes(conc(b) for b in nm.bs).decode() if isinstance(nm, JStr) else '?')
         if isinstance(recv, JCks) and mn == 'calc':
             buf = a[0]
-            w, signed = self.cks_hint
+            w, signed = self.cks_hint.get(recv.alg, self.cks_hint['*'])
             # the contract gives the service the type ChecksumService<ByteBuf, Integer>: a 32-bit result
             if w <= 4:
                 v = refmod.cks_uf(recv.alg, w, list(buf.b))
@@ -1125,11 +1144,7 @@ class JavaFE:
         self.statics = {}
         self.inited = set()
         self.steps = 0
-        self.cks_hint = (4, False)
-        for f in packet.fields:
-            sem = self.spec.resolve(f)
-            if sem[0] == 'checksum':
-                self.cks_hint = (WIDTH[sem[1]], sem[1].startswith('i'))
+        self.cks_hint = refmod.cks_hints(self.spec, packet)
 
     def to_lang(self, packet, msg, parent=None):
         c = self.find_class(packet, parent)
